@@ -111,5 +111,38 @@ theorem build_refs_in_range (db : Db) (rb : Bp.RefBp) (r : Ref) (h : buildRef db
   subst h
   exact ⟨_, _, ht1, ht2, locateCols_in_range _ _ _ h2, locateCols_in_range _ _ _ h4⟩
 
+/-- a column type is linked to an enum only when that enum carries exactly the schema and name the type
+    text spells (`schema.name`, or bare = schema public), and to the first such enum -/
+theorem resolveType_sound (enums : List Enum) (ty : Str) (i : Nat) (h : resolveTypePure enums ty = .enum i) :
+    ∃ e, enums[i]? = some e ∧ e.schema = (typeKey ty).1 ∧ e.name = (typeKey ty).2
+      ∧ ∀ j, j < i → ∀ e', enums[j]? = some e' → ¬ (e'.schema = (typeKey ty).1 ∧ e'.name = (typeKey ty).2) := by
+  unfold resolveTypePure at h
+  split at h
+  · rename_i j hj
+    cases h
+    obtain ⟨hlt, hp, hbefore⟩ := List.findIdx?_eq_some_iff_getElem.mp hj
+    refine ⟨enums[i], List.getElem?_eq_getElem hlt, ?_, ?_, ?_⟩
+    · simp only [Bool.and_eq_true, beq_iff_eq] at hp; exact hp.1
+    · simp only [Bool.and_eq_true, beq_iff_eq] at hp; exact hp.2
+    · intro k hk e' he'
+      have hk' : k < enums.length := Nat.lt_trans hk hlt
+      have := hbefore k hk
+      rw [List.getElem?_eq_getElem hk'] at he'
+      cases he'
+      simpa using this
+  · cases h
+
+/-- … and a type text spelling an existing enum is always linked (never left as a plain string) -/
+theorem resolveType_complete (enums : List Enum) (ty : Str) (e : Enum) (he : e ∈ enums)
+    (hs : e.schema = (typeKey ty).1) (hn : e.name = (typeKey ty).2) : ∃ i, resolveTypePure enums ty = .enum i := by
+  unfold resolveTypePure
+  split
+  · rename_i i _; exact ⟨i, rfl⟩
+  · rename_i hnone
+    exfalso
+    rw [List.findIdx?_eq_none_iff] at hnone
+    have := hnone e he
+    simp [hs, hn] at this
+
 end C05
 end PyDBML
